@@ -42,7 +42,7 @@ ExpOpts == {[kind |-> "none", d |-> 0, s |-> 0, t |-> None], [kind |-> "dt", d |
 Mk(po, do, so, mo, eo, sec, ho, part) ==
   [path_set |-> po.set, path |-> po.p, dom_set |-> do.set, domain |-> do.d, ma_kind |-> mo.kind, ma_neg |-> mo.neg,
    ma_digits |-> mo.ds, exp_kind |-> eo.kind, exp_days |-> eo.d, exp_secs |-> eo.s, exp_text |-> eo.t, sync |-> FALSE,
-   secure |-> sec, httponly |-> ho, ss_set |-> so.set, samesite |-> so.s, partitioned |-> part]
+   secure |-> sec, httponly |-> ho, ss_set |-> so.set, samesite |-> so.s, partitioned |-> part, idna |-> <<>>]
 NoPath == [set |-> FALSE, p |-> None]
 Slash == [set |-> TRUE, p |-> <<47>>]
 NoDom == [set |-> FALSE, d |-> None]
